@@ -112,7 +112,7 @@ CHECKS["C07"] = dict(
     quick=dict(shards=8, checks=120, timeout=900),
     thorough=dict(shards=16, checks=1500, timeout=3000),
     assumptions=[
-        "'must block' is observed for 60 ms (a late frame can only make the check miss a bug, never invent one); 'must be admitted / delivered' uses a 10 s bound",
+        "'must block' is observed for 60 ms (a late frame can only make the check miss a bug, never invent one); 'must be admitted / delivered' uses a 20 s bound",
         "W is the opener's window carried by the open frame; the opening payload and the closing SendAndClose payload debit without waiting",
     ],
 )
